@@ -460,10 +460,11 @@ def run_case(ck, s, drv, c, pki, wd, reqs):
 
     # ------------------------------------------------------------------ oracle 2: SPSDK parse gives the same segments
     pr = pyres(HabContainer.parse, img)
-    heuristic_ok = app_heuristic_ok(img, e_app, app_off)
+    # signed / encrypted images: the application is located through the CSF block list; unsigned images: reset-vector heuristic
+    heuristic_ok = auth or app_heuristic_ok(img, e_app, app_off)
+    fin = None if heuristic_ok else "C07-parse-app-offset-guess"
     if pr[0] != "ok":
-        s.expect(False, cid, "HabContainer.parse raised on an image SPSDK built", pr,
-                 finding=None if heuristic_ok else "C07-parse-app-offset-guess")
+        s.expect(False, cid, "HabContainer.parse raised on an image SPSDK built", pr, finding=fin)
         real_parse = pr[0]
     else:
         p = pr[1]
@@ -478,10 +479,9 @@ def run_case(ck, s, drv, c, pki, wd, reqs):
             s.expect(same == ("ok", True), cid, f"parse does not give back the {name} segment", None if b is None else (b.offset, same))
         pa = p.get_segment(HabSegment.APP)
         ha = hab.get_segment(HabSegment.APP)
-        fin = "C07-parse-app-offset-guess" if not heuristic_ok else None
-        s.expect(pa is not None and pa.offset == app_off and pa.binary[:len(ha.binary)] == ha.binary and not any(pa.binary[len(ha.binary):]),
-                 cid, "parse does not give back the application (up to the zero fill before the CSF)", None if pa is None else (pa.offset, len(pa.binary)),
-                 (app_off, len(app16)), finding=fin)
+        s.expect(pa is not None and pa.offset == app_off and pa.binary == ha.binary, cid,
+                 "parse does not give back the application segment (ciphertext when encrypted)", None if pa is None else (pa.offset, len(pa.binary)),
+                 (app_off, len(ha.binary)), finding=fin)
         if heuristic_ok:
             s.expect(pyres(p.export) == ("ok", img), cid, "parse(export).export() differs from export()")
 
@@ -828,7 +828,7 @@ def cli_stream(ck, pki, devices, scratch):
         sc.expect(cli_img == img, cid, "`nxpimage hab export` output differs from HabContainer.load_from_config(...).export()",
                   (len(cli_img), next((k for k in range(min(len(cli_img), len(img))) if cli_img[k] != img[k]), None)), len(img))
         e_app = struct.unpack_from("<I", img, 4)[0]
-        if c["mode"] == "enc" or not app_heuristic_ok(img, e_app, c["ils"] - c["ivt"]):
+        if c["mode"] == "plain" and not app_heuristic_ok(img, e_app, c["ils"] - c["ivt"]):
             continue
         pdir = os.path.join(wd, "parsed")
         res = runner.invoke(nxpimage.main, ["hab", "parse", "-b", out, "-o", pdir], catch_exceptions=True)
@@ -843,7 +843,7 @@ def cli_stream(ck, pki, devices, scratch):
                 continue
             data = open(fp, "rb").read() if os.path.isfile(fp) else None
             want = seg.export()
-            same = data is not None and (data == want if seg_name.label != "app" else data[:len(want)] == want and not any(data[len(want):]))
+            same = data is not None and data == want
             sc.expect(same, cid, f"`nxpimage hab parse` does not write the builder's {seg_name.label} segment", None if data is None else len(data), len(want))
 
 
